@@ -14,3 +14,12 @@
     ensures r@ == spec_sha256(value@), //# C01 C12 name=digest_of_value
 //@ end
 
+
+//@ fn crypto.rs sha256_hex
+//@ props C08 C01 C12
+//@ ret r
+//@ spec
+    ensures r@ == spec_hex(spec_sha256(value@)), //# C01 C12 name=hex_of_digest
+//@ bodystart
+    broadcast use axiom_as_ref_bytes_slice;
+//@ end
